@@ -219,6 +219,7 @@ def run_coq_judge(requires: list[str], judge: str, terms: list[str], shard=300, 
                 f.write(_COQ_HEADER)
                 for r in requires:
                     f.write(f"From PS Require Import {r}.\n")
+                f.write("Open Scope N_scope.\n")   # whatever scopes the imported files export
                 f.write("Definition cases := [\n" + ";\n".join(terms[k:k + shard]) + "\n].\n")
                 f.write(f"Definition results : list N := map {judge} cases.\n")
                 f.write("Eval vm_compute in results.\n")
